@@ -45,6 +45,7 @@ type Writer struct {
 // call to write. If returned value is to be preserved past a second
 // invocation then the buffer should be copied.
 func (w *Writer) Encode(data any) []byte {
+	w.w = nil // not the io.Writer of an earlier Write
 	b, _ := w.encode(data)
 
 	return b
@@ -53,6 +54,7 @@ func (w *Writer) Encode(data any) []byte {
 // Marshal data. The same as Encode but a panics during encoding will result
 // in an error return.
 func (w *Writer) Marshal(data any) ([]byte, error) {
+	w.w = nil // not the io.Writer of an earlier Write
 	if _, err := w.encode(data); err != nil {
 		return nil, err
 	}
